@@ -22,7 +22,8 @@ def facts_for(patch, refresh=False):
     out = os.path.join(FACTS, base + ".json")
     head = subprocess.run(["git", "-C", REPO, "rev-parse", "HEAD"], capture_output=True, text=True).stdout.strip()
     stamp = out + ".stamp"
-    want = head + " " + str(os.path.getmtime(patch))
+    from hcsa.selftest import _driver_id
+    want = head + " " + str(os.path.getmtime(patch)) + " " + _driver_id()
     if not refresh and os.path.exists(out) and os.path.exists(stamp) and open(stamp).read() == want:
         return out, ""
     tmp = tempfile.mkdtemp(prefix="hcsa-ev-")
